@@ -1,2 +1,74 @@
-// verification hooks (see /verif/DESIGN.md section 10); compiled only with --features verif-hooks
+// Verification hooks for src/lru/segmented.rs (child module: sees private fields).
 #![allow(missing_docs, dead_code, unused_imports)]
+
+use super::*;
+pub use crate::verif_hooks::spec::{Abs, Vid, NMAX};
+
+#[derive(Clone, Copy, PartialEq, Eq, Debug)]
+pub struct SegAbs {
+    pub probationary: Abs,
+    pub protected: Abs,
+    pub probationary_size: usize,
+    pub protected_size: usize,
+}
+
+impl<K, V, FH, RH> SegmentedCache<K, V, FH, RH> {
+    /// abstract view: both segment views plus the configured sizes
+    #[doc(hidden)]
+    pub fn verif_abs(&self) -> SegAbs
+    where
+        K: Vid,
+        V: Vid,
+    {
+        SegAbs {
+            probationary: self.probationary.verif_abs(),
+            protected: self.protected.verif_abs(),
+            probationary_size: self.probationary_size,
+            protected_size: self.protected_size,
+        }
+    }
+}
+
+#[cfg(kani)]
+impl<K: Hash + Eq, V, FH: BuildHasher, RH: BuildHasher> SegmentedCache<K, V, FH, RH> {
+    pub(crate) fn verif_from_parts(
+        probationary: RawLRU<K, V, DefaultEvictCallback, RH>,
+        protected: RawLRU<K, V, DefaultEvictCallback, FH>,
+    ) -> Self {
+        SegmentedCache {
+            probationary_size: probationary.cap(),
+            probationary,
+            protected_size: protected.cap(),
+            protected,
+        }
+    }
+
+    pub(crate) fn verif_check(&self) -> (SegAbs, bool)
+    where
+        K: Vid,
+        V: Vid,
+    {
+        let (pb, w1) = self.probationary.verif_check();
+        let (pt, w2) = self.protected.verif_check();
+        (
+            SegAbs { probationary: pb, protected: pt, probationary_size: self.probationary_size, protected_size: self.protected_size },
+            w1 && w2,
+        )
+    }
+
+    pub(crate) fn verif_wf(&self) -> bool
+    where
+        K: Vid,
+        V: Vid,
+    {
+        self.verif_check().1
+    }
+
+    pub(crate) fn verif_forget(self) {
+        core::mem::forget(self)
+    }
+}
+
+#[cfg(kani)]
+#[path = "/verif/kani/harness_segmented.rs"]
+pub(crate) mod harness;
